@@ -338,8 +338,11 @@ func (h *hist) commit() { h.commitBlock(nil) }
 // waiting-list entries were cancelled/pruned by PruneStateOnRollback before it is committed again.
 func (h *hist) reprocess() {
 	orig := h.w.Head()
-	if orig.Script == nil {
-		h.commit()
+	if !orig.Replayable() {
+		// identical re-execution is not well-defined (scripted block, or a block with a failed-and-reverted
+		// RemoveAccount whose outcome depends on nodes a blocked rollback leaves in the DB): plain rollback
+		h.r.Count("reprocess_skipped_block_not_replayable", 1)
+		h.rollback()
 		return
 	}
 	h.rollback()
@@ -693,6 +696,7 @@ func main() {
 		"the model of the pruning buffer (used only to pick the violation key and to decide where the garbage oracle applies) follows storagePruningManager: CancelPrune is buffered when blocked or the buffer is non-empty, PruneTrie(Old) is buffered when blocked, an unblocked PruneTrie drains",
 		"roots whose prune was requested while pruning is (certainly) blocked stay required until it is unblocked; other requested roots are not required (sound under buffering)",
 		"a failed RemoveAccount is followed by RevertToSnapshot(pre-op journal length), as scProcessor does",
+		"a block is re-processed only when identical re-execution is well-defined: blocks containing a failed-and-reverted RemoveAccount are not (RemoveAccount of an account with uncommitted data-trie changes fails while the new data-trie root is absent from the DB, and succeeds once a rollback under blocked pruning has left the nodes of the first processing behind)",
 	)
 	r.MinShapes(20)
 	n := r.N(300, 10000)
